@@ -7,7 +7,15 @@
     recorded and the chosen potential victims, nominate what the simulation placed
     - which is committed as a whole when the victims passed the action's filter,
     the action's validators accept and the pending job is solved, and discarded
-    otherwise ([run_scenario]).  A commit emits one call per valid operation.
+    otherwise ([run_scenario_f]).  A commit ([commit_run], following
+    Statement.Commit / commitEvict / commitAllocate) issues one Cache call per
+    valid operation, in order, under a failure oracle [faults] saying which Evict
+    and which Bind calls of the commit return an error: a refused eviction is
+    logged, Statement.unevict is called with the status the pod has at commit
+    time (so the pod stays Releasing, or nominated, in the session) and the loop
+    goes on; a refused bind cleans up, clears the operations and returns.  [run_scenario] is the
+    commit in which no call fails; [VEvict] is an eviction the cluster accepted,
+    [VEvictFailed] one it refused.
 
     Reading of the property text used below.  A victim need not be running: a pod
     that was only nominated earlier in the same cycle (status Pipelined) can be
@@ -56,26 +64,59 @@ Theorem C06_victim_eligible_partial :
 Proof. exact victim_eligible_partial. Qed.
 Print Assumptions C06_victim_eligible_partial.
 
-(** The same for every commit of every run of an action (any scenario order). *)
+(** Under ANY failure oracle: every Evict call of the commit, accepted or refused
+    ([evict_call_of x t a' p']: x = VEvict t a' p' or x = VEvictFailed t a' p'), is
+    an eviction of the same scenario's commit without failures ([as_accepted] turns
+    a refused call into the accepted one: failures only refuse calls, they add,
+    drop and reorder none) and is eligible as above. *)
+Theorem C06_victim_eligible_any_faults :
+  forall f env a s pre sc sim calls s' x t a' p',
+    run_scenario_f f env a s pre sc sim = Committed calls s' ->
+    evict_call_of x t a' p' -> In x calls ->
+    a' = a /\ p' = pre
+    /\ exists s0, run_scenario env a s pre sc sim = Committed (map as_accepted calls) s0
+         /\ victim_eligible_at (fun a => a <> AConsolidation) env a s s0 pre t.
+Proof. exact victim_eligible_faults. Qed.
+Print Assumptions C06_victim_eligible_any_faults.
+
+(** The same for every commit of every run of an action (any scenario order, any
+    failure oracle per commit; [sj]: the session the commit leaves when no call fails). *)
 Theorem C06_victim_eligible_every_commit :
   forall env s steps cs sf,
     run_steps env s steps = Some (cs, sf) ->
     forall st calls, In (st, calls) cs ->
-    forall t a' p', In (VEvict t a' p') calls ->
+    forall x t a' p', evict_call_of x t a' p' -> In x calls ->
     a' = sp_action st /\ p' = sp_preemptor st
     /\ exists si sj, ss_jobs si = ss_jobs s
          /\ victim_eligible_at (fun a => a <> AConsolidation) env (sp_action st) si sj (sp_preemptor st) t.
 Proof. exact victim_eligible_cycle. Qed.
 Print Assumptions C06_victim_eligible_every_commit.
 
-(** ** 2. Every eviction has a purpose: the commit that evicts also nominates a pod of the pending job *)
+(** ** 2. Every eviction has a purpose: the commit that evicts also nominates the pending job *)
+
+(** Fault-tolerant form.  For every failure oracle, every commit - so in
+    particular every commit in which some eviction call succeeded - (a) nominates
+    a pod of the pending job and (b) issues exactly the nominations the commit
+    without failures issues (the pending job's other pods, the re-placed victims),
+    whichever evictions the cluster refused. *)
 Theorem C06_eviction_has_purpose :
+  forall f env a s pre sc sim calls s',
+    run_scenario_f f env a s pre sc sim = Committed calls s' ->
+    (exists t n gs tk, In (VPipe t n gs) calls /\ get_task (ss_tasks s) t = Some tk /\ vt_job tk = pre)
+    /\ exists calls0 s0, run_scenario env a s pre sc sim = Committed calls0 s0
+          /\ forall t n gs, In (VPipe t n gs) calls0 <-> In (VPipe t n gs) calls.
+Proof. exact eviction_has_purpose_faults. Qed.
+Print Assumptions C06_eviction_has_purpose.
+
+(** the commit in which no call fails (the statement as it was before failures were modelled) *)
+Theorem C06_eviction_has_purpose_fault_free :
   forall env a s pre sc sim calls s',
     run_scenario env a s pre sc sim = Committed calls s' ->
     exists t n gs tk, In (VPipe t n gs) calls /\ get_task (ss_tasks s) t = Some tk /\ vt_job tk = pre.
 Proof. exact eviction_has_purpose_core. Qed.
-Print Assumptions C06_eviction_has_purpose.
+Print Assumptions C06_eviction_has_purpose_fault_free.
 
+(** every commit of every run of an action, any failure oracle per commit *)
 Theorem C06_eviction_has_purpose_every_commit :
   forall env s steps cs sf,
     run_steps env s steps = Some (cs, sf) ->
@@ -85,28 +126,77 @@ Theorem C06_eviction_has_purpose_every_commit :
 Proof. exact eviction_has_purpose_cycle. Qed.
 Print Assumptions C06_eviction_has_purpose_every_commit.
 
+(** The theorem depends on the loop carrying on after a refused eviction: with a
+    Commit that clears its operations and returns at the first refused eviction
+    ([run_scenario_gen [] false]) there is a commit with an accepted eviction and
+    no nomination at all (witness [ex_stop_at_refused_eviction]: two victims, the
+    second Evict call refused). *)
+Theorem C06_commit_must_carry_on_after_refused_eviction :
+  exists f env a s pre sc sim calls s' t,
+    run_scenario_gen [] false f env a s pre sc sim = Committed calls s'
+    /\ In (VEvict t a pre) calls /\ forall t' n gs, ~ In (VPipe t' n gs) calls.
+Proof. exact commit_must_carry_on. Qed.
+Print Assumptions C06_commit_must_carry_on_after_refused_eviction.
+
+(** What if the pending job's own Bind fails?  It cannot: the statements of the
+    three actions hold no allocate operation (their simulation is pipeline-only),
+    so under any oracle a commit issues no Bind call, accepted or refused - the
+    pending job is nominated by TaskPipelined, which has no error return. *)
+Theorem C06_evicting_commits_never_bind :
+  forall f env a s pre sc sim calls s' x,
+    run_scenario_f f env a s pre sc sim = Committed calls s' -> In x calls ->
+    match x with VBind _ _ _ | VBindFailed _ _ _ => False | _ => True end.
+Proof. exact scenario_never_binds. Qed.
+Print Assumptions C06_evicting_commits_never_bind.
+
+(** Commit itself does stop at a refused bind (cleanup, clearOperations, return):
+    were a statement to evict and then allocate, the operations behind the refused
+    bind - nominations included - would be dropped behind an accepted eviction. *)
+Theorem C06_refused_bind_ends_the_commit :
+  (forall c f a pre kb ke s t n gs r,
+     f_bind f kb = true ->
+     commit_run c f a pre ke kb s (SAlloc t n gs :: r) = ([VBindFailed t n gs], unallocate_state s t n))
+  /\ fst (commit_run true (mkF (fun _ => false) (fun _ => true)) APreempt 3 0 0 (ex_state 18720 75 2)
+                      [SEvict 1 Running [] 1 true; SAlloc 3 1 []; SPipe 3 2 []])
+     = [VEvict 1 APreempt 3; VBindFailed 3 1 []].
+Proof. split; [exact commit_run_failed_bind | exact ex_refused_bind]. Qed.
+Print Assumptions C06_refused_bind_ends_the_commit.
+
 (** ** 3. Consolidation evicts a pod only if the same commit re-places it elsewhere *)
 
 (** [good_move s t n gs]: in the session the statement started from, pod t had no
-    entry on node n, or had one with other GPU groups (same node, another device). *)
-Definition C06_consolidation_moves_statement : Prop := consolidation_moves_statement (fun _ => True).
-
-(** Refuted by the statement discipline itself: a pod evicted twice by one
-    statement (known finding C13-double-evict) is un-evicted once and committed
-    once, without any nomination (witness [ex_double_evict]). *)
-Theorem C06_consolidation_moves_refuted : ~ C06_consolidation_moves_statement.
-Proof. exact consolidation_moves_refuted. Qed.
-Print Assumptions C06_consolidation_moves_refuted.
-
-(** Holds when the statement evicts no pod twice. *)
-Theorem C06_consolidation_moves_partial :
-  forall env s pre sc sim calls s' t a' p',
-    run_scenario env AConsolidation s pre sc sim = Committed calls s' ->
-    NoDup (sc_evicted sc) ->
+    entry on node n, or had one with other GPU groups (same node, another device).
+    For every failure oracle, every scenario (a pod may be offered to
+    Statement.Evict any number of times) and every placement: an eviction the
+    cluster ACCEPTED is re-placed by a nomination of the same commit (a refused one
+    leaves the pod where it runs). *)
+Theorem C06_consolidation_moves :
+  forall f env s pre sc sim calls s' t a' p',
+    run_scenario_f f env AConsolidation s pre sc sim = Committed calls s' ->
     In (VEvict t a' p') calls ->
     exists n gs, In (VPipe t n gs) calls /\ good_move s t n gs.
-Proof. exact consolidation_moves_partial. Qed.
-Print Assumptions C06_consolidation_moves_partial.
+Proof. exact consolidation_moves_faults. Qed.
+Print Assumptions C06_consolidation_moves.
+
+(** Before repair bce7109 the statement was false ([run_scenario_gen stale]: the pods
+    in [stale] reach Statement.Evict as copies made by PodGroupInfo.CloneWithTasks,
+    whose Status the guard of 83a0ca3 trusted; before 83a0ca3 there was no guard at
+    all).  A pod evicted as a recorded victim and offered again through such a copy
+    got two evict operations; placing it back un-evicted one; the commit evicted
+    it and re-placed it nowhere (witness [ex_double_evict]; finding
+    C13-double-evict, met on real cycles until bce7109). *)
+Theorem C06_consolidation_moves_before_repair : ~ (forall stale, consolidation_moves_statement stale).
+Proof. exact consolidation_moves_before_repair. Qed.
+Print Assumptions C06_consolidation_moves_before_repair.
+
+Theorem C06_consolidation_moves_every_commit :
+  forall env s steps cs sf,
+    run_steps env s steps = Some (cs, sf) ->
+    forall st calls, In (st, calls) cs -> sp_action st = AConsolidation ->
+    forall t a' p', In (VEvict t a' p') calls ->
+    exists si, ss_jobs si = ss_jobs s /\ exists n gs, In (VPipe t n gs) calls /\ good_move si t n gs.
+Proof. exact consolidation_moves_cycle. Qed.
+Print Assumptions C06_consolidation_moves_every_commit.
 
 (** with node entries as the snapshot builds them: another node, or other GPU groups *)
 Theorem C06_moved_elsewhere :
@@ -154,7 +244,8 @@ Proof. exact resolve_reclaim_lca_terminates. Qed.
 Print Assumptions C06_lca_picks_documented_queue.
 
 (** ** Non-vacuity: commits with evictions exist for each action; an elastic
-    victim inside its min-runtime loses its surplus pod and nothing more; the
+    victim inside its min-runtime loses its surplus pod and nothing more; a commit
+    with an accepted and a refused eviction still nominates the pending job; the
     design document's examples resolve as documented on an acyclic tree. *)
 Theorem C06_nonvacuous :
   (exists s', run_scenario ex_env APreempt (ex_state 18720 75 2) 3 (mkSc [] [1%positive] [1%positive] 0 true)
@@ -167,12 +258,15 @@ Theorem C06_nonvacuous :
                  = Committed [VEvict 2 APreempt 3; VPipe 3 1 []] s')
   /\ run_scenario ex_env APreempt ex_elastic 3 (mkSc [] [1%positive; 2%positive] [1%positive; 2%positive] 0 true)
                   [(3%positive, 1%positive, [])] = Discarded
+  /\ (exists s', run_scenario_f ex_second_evict_fails ex_env APreempt (ex_state 18720 75 2) 3 ex_gang_scenario [(3%positive, 1%positive, [])]
+                 = Committed [VEvict 1 APreempt 3; VEvictFailed 2 APreempt 3; VPipe 3 1 []] s')
   /\ acyclic doc_tree
   /\ resolve_reclaim true (fuel_of doc_tree) doc_tree 7 (qlookup doc_tree 5) (qlookup doc_tree 7) = Dur 60
   /\ resolve_reclaim true (fuel_of doc_tree) doc_tree 7 (qlookup doc_tree 7) (qlookup doc_tree 5) = Dur 600.
 Proof.
   split; [exact ex_preempt_commit|]. split; [exact ex_reclaim_commit|]. split; [exact ex_preempt_inside_refused|].
   destruct ex_elastic_surplus as (H1 & H2 & _). split; [exact H1|]. split; [exact H2|].
+  split; [eexists; exact ex_refused_eviction|].
   split; [exact doc_tree_acyclic|]. destruct doc_tree_examples as (E1 & _ & E3 & _). auto.
 Qed.
 Print Assumptions C06_nonvacuous.
